@@ -71,3 +71,11 @@ def eval_clause(expr: str, env: dict):
     g.update(SPECS)
     g.update(env)
     return eval(compile_clause(expr), g)
+
+
+def latin1_upper(v):
+    return chr(v).isupper()
+
+
+def latin1_lower(v):
+    return chr(v).islower()
